@@ -1,4 +1,5 @@
 import DirectVerif.Lemmas.C13Misc
+import DirectVerif.Lemmas.C13Machine
 /-!
 # C13 — samplers partition the data across ranks and never mix volumes in a batch
 
@@ -249,6 +250,87 @@ example : (mkBVS [3, 1, 5] 2 0 0 2).run [.iter, .len, .iter, .iter] =
 example : (mkBVS [3, 1, 5] 2 1 0 2).run [.iter, .len] = [.batches [[4, 5], [6, 7], [8]], .len 3] := by decide
 example : (mkBVS [3] 2 1 0 2).run [.iter, .len, .iter] = [.batches [], .len 0, .batches []] := by decide
 example : ∀ n ∈ [3, 1, 5], 0 < n := by decide
+
+/-! ## `BatchVolumeSampler` with several live iterators: abandoned passes and interleavings
+
+`Model/C13Machine.lean`: the sampler object plus any number of generator objects (`iter(bs)`), each advanced by
+`next`, abandoned at any `yield`, interleaved in any order with each other and with `len()`.  The object is
+everything `__iter__` reads from `self`; no operation writes it (bridge: `bvs_iter_self_writes = []`,
+`bvs_init_iterator_attrs = []`, `seq_iter_is_indices`). -/
+
+/-- the batches of the one pass over the rank's volumes: each volume's indices cut into pieces of `bs` -/
+def passSpec (layout : List Nat) (world rank : Nat) (limit : Int) (bs : Nat) : List (List Nat) :=
+  (rankVols layout world rank limit).flatMap fun v => chunksOf bs v.indices
+
+/-- whatever clients do with iterators of the object, the object stays as constructed -/
+theorem bvs_machine_object_unchanged (b : BVS) (ops : List MOp) : ((Machine.init b).exec ops).obj = b :=
+  Machine.exec_obj _ ops
+
+/-- **Every pass started in any reachable state yields exactly the single-volume consecutive batches.**
+After an arbitrary history `pre` (complete passes, passes abandoned half-way, several iterators alive, `len`),
+a new `iter(bs)` returns a generator whose `n`-th `next` is the `n`-th batch of `passSpec` (and
+`StopIteration` from the end on), for every continuation `ops` that interleaves it with anything else. -/
+theorem bvs_pass_after_any_history (layout : List Nat) (hl : ∀ n ∈ layout, 0 < n) (world rank : Nat)
+    (limit : Int) (bs : Nat) (hbs : 0 < bs) (pre ops : List MOp)
+    (hna : MOp.abandon ((Machine.init (mkBVS layout world rank limit bs)).exec pre).gens.length ∉ ops) :
+    nextOuts ((Machine.init (mkBVS layout world rank limit bs)).exec pre).gens.length ops
+        ((((Machine.init (mkBVS layout world rank limit bs)).exec pre).step .iter).1.run ops) =
+      (List.range (ops.count (.next ((Machine.init (mkBVS layout world rank limit bs)).exec pre).gens.length))).map
+        fun n => MOut.ofOpt ((passSpec layout world rank limit bs)[n]?) := by
+  generalize hm : (Machine.init (mkBVS layout world rank limit bs)).exec pre = m at *
+  have hobj : m.obj = mkBVS layout world rank limit bs := by
+    rw [← hm]; exact Machine.exec_obj _ pre
+  have hg : (m.step .iter).1.gens[m.gens.length]? = some (some GenSt.fresh) := by
+    simp [Machine.step]
+  rw [machine_pass_general ops _ _ _ hg hna, Machine.step_obj, hobj]
+  simp only [BVS.remaining, passSpec, mkBVS]
+  rw [bvs_iterate_eq _ bs hbs (rankVols_pos layout world rank limit hl)]
+
+/-- the one pass has exactly `len()` batches: an iterator run to the end returns `len()` batches and then
+`StopIteration` (with `bvs_pass_after_any_history`: the `n`-th `next` is a batch iff `n < len()`) -/
+theorem bvs_pass_length_eq_len (layout : List Nat) (world rank : Nat) (limit : Int) (bs : Nat) (hbs : 0 < bs) :
+    (passSpec layout world rank limit bs).length = (mkBVS layout world rank limit bs).numBatches := by
+  rw [passSpec, flatMap_length_sum]
+  simp only [mkBVS, BVS.mk']
+  congr 1
+  apply List.map_congr_left
+  intro v _
+  rw [chunksOf_length bs hbs, Vol.indices, List.length_range', Vol.size]
+
+/-- **every batch that any iterator returns at any point of any interleaved history** holds consecutive
+indices of a single volume of the rank, at most `bs` of them -/
+theorem bvs_machine_batches_single_volume (layout : List Nat) (hl : ∀ n ∈ layout, 0 < n) (world rank : Nat)
+    (limit : Int) (bs : Nat) (hbs : 0 < bs) (ops : List MOp) (batch : List Nat)
+    (h : MOut.batch batch ∈ (Machine.init (mkBVS layout world rank limit bs)).run ops) :
+    ∃ v ∈ rankVols layout world rank limit, ∃ c m,
+      batch = List.range' c m ∧ v.start ≤ c ∧ c + m ≤ v.stop ∧ 0 < m ∧ m ≤ bs := by
+  have hb := machine_batches_mem _ ops _ (Machine.inv_init _) batch h
+  simp only [mkBVS] at hb
+  rw [bvs_iterate_eq _ bs hbs (rankVols_pos layout world rank limit hl), List.mem_flatMap] at hb
+  obtain ⟨v, hv, hbv⟩ := hb
+  have hp := rankVols_pos layout world rank limit hl v hv
+  obtain ⟨c, m, e, h1, h2, h3, h4⟩ := chunksOf_range'_mem bs hbs _ _ batch hbv
+  exact ⟨v, hv, c, m, e, h1, by omega, h3, h4⟩
+
+/-- `len()` anywhere in an interleaved history reports the number of batches of a pass -/
+theorem bvs_machine_len (layout : List Nat) (world rank : Nat) (limit : Int) (bs : Nat) (hbs : 0 < bs)
+    (pre : List MOp) :
+    (((Machine.init (mkBVS layout world rank limit bs)).exec pre).step .len).2 =
+      .len (passSpec layout world rank limit bs).length := by
+  rw [bvs_pass_length_eq_len _ _ _ _ _ hbs]
+  simp only [Machine.step, Machine.exec_obj, Machine.init]
+
+-- a pass abandoned after the first volume, then a full pass; two interleaved passes (`zip(bs, bs)`)
+example : (Machine.init (mkBVS [3, 2] 1 0 0 2)).run
+      [.iter, .next 0, .next 0, .abandon 0, .len, .iter, .next 1, .next 1, .next 1, .next 1, .next 1] =
+    [.handle 0, .batch [0, 1], .batch [2], .closed, .len 3, .handle 1, .batch [0, 1], .batch [2], .batch [3, 4],
+     .stop, .stop] := by decide
+example : (Machine.init (mkBVS [3, 2] 1 0 0 2)).run
+      [.iter, .iter, .next 0, .next 1, .next 0, .next 1, .next 0, .next 1, .next 0, .next 1] =
+    [.handle 0, .handle 1, .batch [0, 1], .batch [0, 1], .batch [2], .batch [2], .batch [3, 4], .batch [3, 4],
+     .stop, .stop] := by decide
+example : MOp.abandon ((Machine.init (mkBVS [3, 2] 1 0 0 2)).exec [.iter, .next 0, .abandon 0]).gens.length ∉
+    [MOp.next 1, .len, .next 1] := by decide
 
 /-- Regression witness: on the pre-repair object (iterator and `_next_value` stored on the object and
 consumed) the **second** pass over layout `[2, 3]` with batch size 4 mixes both volumes in one batch. -/
